@@ -164,3 +164,147 @@ def install(prog):
     @B('const std::path::MAIN_SEPARATOR')
     def b_main_sep(ctx, a, callee):
         return ord('/')
+
+    # ---------------------------------------------------------------- io / env / process stubs (never executed for real)
+    @B('current_dir', 'std::env::current_dir')
+    def b_current_dir(ctx, a, callee):
+        ctx.event('current_dir')
+        return ok(to_path(ctx.cwd))
+
+    def io_error(msg):
+        return Agg('io::Error', None, (msg,))
+
+    @B('std::fs::File::open', 'File::open')
+    def b_file_open(ctx, a, callee):
+        p = to_path(a[0]).to_str()
+        ctx.event('open', p)
+        c = ctx.fs.get(p)
+        if c is None:
+            return err(io_error('No such file or directory (os error 2)'))
+        if type(c) is tuple:
+            return err(io_error(c[1]))
+        return ok(Agg('File', None, (p, CellV(c))))
+
+    @B('<std::fs::File as Read>::read_to_string', '<File as Read>::read_to_string')
+    def b_read_to_string(ctx, a, callee):
+        f = D(a[0])
+        content = f.fields[1].slot[0]
+        cur = a[1].load()
+        a[1].store(assemble([cur, content]))
+        from .bi_str import sbytes
+        return ok(len(sbytes(content)))
+
+    @B('<std::fs::File as Read>::read_to_end', '<File as Read>::read_to_end')
+    def b_read_to_end(ctx, a, callee):
+        f = D(a[0])
+        content = f.fields[1].slot[0]
+        from .bi_str import sbytes
+        cur = a[1].load()
+        a[1].store(VecV(tuple(cur.items) + tuple(sbytes(content))))
+        return ok(len(sbytes(content)))
+
+    @B('std::fs::read_to_string', 'read_to_string')
+    def b_fs_read_to_string(ctx, a, callee):
+        p = to_path(a[0]).to_str()
+        ctx.event('open', p)
+        c = ctx.fs.get(p)
+        if c is None:
+            return err(io_error('No such file or directory (os error 2)'))
+        if type(c) is tuple:
+            return err(io_error(c[1]))
+        return ok(c)
+
+    @B('std::fs::File::create', 'File::create')
+    def b_file_create(ctx, a, callee):
+        p = to_path(a[0]).to_str()
+        ctx.event('create', p)
+        if ctx.fs.get('!create:' + p):
+            return err(io_error('Permission denied (os error 13)'))
+        return ok(Agg('Sink', None, (CellV(()),), ) if False else Agg('OutFile', None, (p,)))
+
+    @B('re:^<(OutFile|std::fs::File|File) as (std::io::)?Write>::(write_fmt|write_all|write)$')
+    def b_outfile_write(ctx, a, callee):
+        f = D(a[0])
+        from .bi_str import format_to_value, mkstr, sbytes
+        v = format_to_value(ctx, a[1]) if callee.endswith('write_fmt') else mkstr(sbytes(a[1]))
+        ctx.event('write', f.fields[0], v)
+        return ok(UNIT) if not callee.endswith('::write') else ok(len(sbytes(v)))
+
+    @B('<io::Error as Display>::fmt', '<std::io::Error as Display>::fmt')
+    def b_io_error_display(ctx, a, callee):
+        from .bi_str import fmt_push
+        fmt_push(a[1], D(a[0]).fields[0])
+        return ok(UNIT)
+
+    @B('std::io::Error::kind')
+    def b_io_error_kind(ctx, a, callee):
+        return Agg('ErrorKind', 0, ())
+
+    @B('Path::exists', 'Path::is_file')
+    def b_path_exists(ctx, a, callee):
+        p = to_path(a[0]).to_str()
+        ctx.event('exists', p)
+        return p in ctx.fs
+
+    @B('Path::is_dir')
+    def b_path_is_dir(ctx, a, callee):
+        p = to_path(a[0]).to_str()
+        return any(k.startswith(p.rstrip('/') + '/') for k in ctx.fs)
+
+    @B('var', 'std::env::var')
+    def b_env_var(ctx, a, callee):
+        return err(Agg('VarError', 0, ()))
+
+    @B('SimpleError::new', 'simple_error::SimpleError::new')
+    def b_simple_error(ctx, a, callee):
+        return Agg('SimpleError', None, (D(a[0]),))
+
+    @B('<SimpleError as Display>::fmt', '<simple_error::SimpleError as Display>::fmt')
+    def b_simple_error_display(ctx, a, callee):
+        from .bi_str import fmt_push
+        fmt_push(a[1], D(a[0]).fields[0])
+        return ok(UNIT)
+
+    @B('<dyn std::error::Error as Display>::fmt', '<dyn Error as Display>::fmt')
+    def b_dyn_error_display(ctx, a, callee):
+        from .bi_str import render_value
+        render_value(ctx, a[0], 'display', '', a[1])
+        return ok(UNIT)
+
+    @B('<dyn std::error::Error as ToString>::to_string', '<dyn Error as ToString>::to_string')
+    def b_dyn_error_to_string(ctx, a, callee):
+        return prog.find_builtin('<_ as ToString>::to_string')(ctx, a, callee)
+
+    # ---------------------------------------------------------------- regex (third-party): python `re` on concrete
+    # strings for the common syntax subset; an arbitrary (fresh symbolic) verdict otherwise — listed as an assumption.
+    @B('regex::Regex::new', 'Regex::new')
+    def b_regex_new(ctx, a, callee):
+        import re as _re
+        pat = D(a[0])
+        if type(pat) is str:
+            try:
+                _re.compile(pat)
+            except _re.error as e:
+                return err(Agg('regex::Error', None, ('regex parse error: ' + str(e),)))
+        return ok(Agg('Regex', None, (pat,)))
+
+    @B('regex::Regex::find', 'Regex::find', 'regex::Regex::is_match', 'Regex::is_match')
+    def b_regex_find(ctx, a, callee):
+        import re as _re
+        pat = D(a[0]).fields[0]
+        s = D(a[1])
+        if type(pat) is str and type(s) is str:
+            m = _re.search(pat, s)
+            if callee.endswith('is_match'):
+                return m is not None
+            return some(Agg('Match', None, (m.start(), m.end()))) if m else NONE
+        v = ctx.boolean(ctx.fresh_name('regex_match'))
+        if callee.endswith('is_match'):
+            return v
+        return some(Agg('Match', None, (0, 0))) if ctx.branch(v) else NONE
+
+    @B('<regex::Error as Display>::fmt', '<Error as Display>::fmt')
+    def b_regex_error_display(ctx, a, callee):
+        from .bi_str import fmt_push
+        fmt_push(a[1], D(a[0]).fields[0])
+        return ok(UNIT)
